@@ -32,6 +32,20 @@ pub fn gen(r: &mut Rng, p: &Params) -> Vec<String> {
             lines.push("rows".into());
         }
     }
+    // a populated directory that lost exactly one of its four records: every reopening must be refused
+    let mut pc = 0;
+    for k in KEYS {
+        for (n1, t1) in [("signet", "true"), ("regtest", "false"), ("mainnet", "true")] {
+            lines.push(format!("case Fpartial{}", pc));
+            pc += 1;
+            lines.push(format!("partial {} {} {}", k, n1, t1));
+            lines.push("rows".into());
+            for (n2, t2) in [(n1, t1), (n1, if t1 == "true" { "false" } else { "true" }), ("testnet4", t1)] {
+                lines.push(format!("validate {} {}", n2, t2));
+                lines.push("rows".into());
+            }
+        }
+    }
     for i in 0..p.cases {
         lines.push(format!("case F{}", c + i));
         lines.push(format!("state {}", r.pick(&["missing", "empty", "file", "foreign", "missing", "empty"])));
@@ -95,6 +109,7 @@ pub fn exec(lines: &[String], out: &mut Out, scratch: &Path) {
     let mut case = String::new();
     let mut created_with: Option<(String, String)> = None;
     let mut tampered = false;
+    let mut partial = false;
     let rt = tokio::runtime::Builder::new_multi_thread().worker_threads(2).enable_all().build().unwrap();
     for line in lines {
         let ws: Vec<&str> = line.split(' ').filter(|w| !w.is_empty()).collect();
@@ -107,8 +122,44 @@ pub fn exec(lines: &[String], out: &mut Out, scratch: &Path) {
                 dir = scratch.join(format!("f{}", n)).join("db");
                 created_with = None;
                 tampered = false;
+                partial = false;
+            }
+            ["partial", k, net, traces] => {
+                // the four records of (net, traces) under the current versions, except `k`; plus a data file
+                let _ = std::fs::remove_dir_all(&dir);
+                let _ = std::fs::remove_file(&dir);
+                std::fs::create_dir_all(&dir).unwrap();
+                // the version records as the real code writes them now (a fresh directory validated once)
+                let tmpl = dir.with_extension("tmpl");
+                let _ = std::fs::remove_dir_all(&tmpl);
+                validate_config_database(&cfg(&tmpl, net, traces)).unwrap();
+                let (dbv, pv) = {
+                    let t = ConfigDatabase::new(&tmpl, "config").unwrap();
+                    (t.get("DB_VERSION".to_string()).unwrap().unwrap(), t.get("PROTOCOL_VERSION".to_string()).unwrap().unwrap())
+                };
+                let _ = std::fs::remove_dir_all(&tmpl);
+                {
+                    let mut db = ConfigDatabase::new(&dir, "config").unwrap();
+                    let rows = [
+                        ("DB_VERSION", dbv),
+                        ("PROTOCOL_VERSION", pv),
+                        ("BITCOIN_RPC_NETWORK", if *net == "~" { String::new() } else { net.to_string() }),
+                        ("EVM_RECORD_TRACES", (*traces == "true").to_string()),
+                    ];
+                    for (key, val) in rows {
+                        if key != *k {
+                            db.set(key.to_string(), val).unwrap();
+                        }
+                    }
+                    db.flush().unwrap();
+                }
+                created_with = None;
+                tampered = false;
+                partial = true;
+                out.line(line, "ok");
             }
             ["state", s] => {
+                partial = false;
                 let _ = std::fs::remove_dir_all(&dir);
                 let _ = std::fs::remove_file(&dir);
                 std::fs::create_dir_all(dir.parent().unwrap()).unwrap();
@@ -147,7 +198,12 @@ pub fn exec(lines: &[String], out: &mut Out, scratch: &Path) {
                 };
                 // oracle: the property itself
                 let this = (net.to_string(), traces.to_string());
-                if fresh && res.is_ok() {
+                if partial && res.is_ok() {
+                    out.oracle_fail(&case, "partial-accepted", &format!("a populated directory that lacks one of the four recorded settings was accepted ({:?})", this));
+                    partial = false; // whatever was written now, later lines are judged by the model only
+                    tampered = true;
+                } else if partial {
+                } else if fresh && res.is_ok() {
                     created_with = Some(this.clone());
                 } else if let Some(cw) = &created_with {
                     if res.is_ok() && *cw != this {
